@@ -1575,10 +1575,7 @@ impl World {
         }
         for h in self.hosts.iter_mut() {
             h.daemon = None;
-            let mut g = h.ctx.lock();
-            g.kill = true;
-            drop(g);
-            h.ctx.cv.notify_all();
+            h.ctx.kill();
         }
         for h in self.hosts.iter() {
             let start = Instant::now();
